@@ -4,6 +4,7 @@ package req
 
 import (
 	"context"
+	"crypto/tls"
 	"fmt"
 	"io"
 	"net/http/httptrace"
@@ -25,6 +26,7 @@ type c08Scenario struct {
 	maxRetries int
 	reused     bool // a warm-up request leaves an idle / shared connection
 	waitConn   bool // MaxConnsPerHost=1 and the only connection is busy
+	autoRead   bool // req's default: the response body is read inside the attempt
 	interval   time.Duration
 }
 
@@ -44,6 +46,7 @@ type c08Obs struct {
 	firedNm  string
 	trace    []string
 	names    []string
+	injNames []string // names of the injectable events, in order
 	res      string
 	err      error
 	elapsed  time.Duration
@@ -119,11 +122,13 @@ func c08Exec(sc c08Scenario, kind string, trigger int, timeoutFlavour bool, clie
 	}
 	run := newC08Run(sc.up, sc.down, sc.failFirst, trigger, inject)
 	run.stallAt = timeoutFlavour
+	run.peerDriven = sc.autoRead
 
 	d := &c08Dialer{}
 	var peer c08Peer
 	var h1 *c08H1Peer
 	var h2 *c08H2Peer
+	var h3 *c08H3Peer
 	switch sc.proto {
 	case "h1":
 		p, err := newC08H1Peer()
@@ -136,13 +141,37 @@ func c08Exec(sc c08Scenario, kind string, trigger int, timeoutFlavour bool, clie
 	case "h2":
 		h2 = newC08H2Peer()
 		peer = h2
+	case "h3":
+		p, err := newC08H3Peer()
+		if err != nil {
+			o.hung = true
+			o.err = err
+			return
+		}
+		h3, peer = p, p
+		h2 = p.h // the script handler
 	}
 	defer peer.close()
 
-	c := C().DisableAutoReadResponse()
+	c := C()
+	if !sc.autoRead {
+		c.DisableAutoReadResponse()
+	}
 	c.SetDial(d.dial)
 	if sc.proto == "h2" {
 		c.SetTLSHandshake(d.handshake)
+	}
+	if sc.proto == "h3" {
+		c.EnableForceHTTP3()
+		t3 := c.GetTransport().t3
+		if t3 == nil {
+			o.hung, o.err = true, fmt.Errorf("HTTP/3 not available on this toolchain")
+			return
+		}
+		// (the round tripper's own TLS config is what it reads; see C12)
+		t3.TLSClientConfig = &tls.Config{InsecureSkipVerify: true}
+		t3.Dial = d.h3dial
+		defer t3.Close()
 	}
 	if timeoutFlavour {
 		c.SetTimeout(clientTimeout)
@@ -239,6 +268,14 @@ func c08Exec(sc c08Scenario, kind string, trigger int, timeoutFlavour bool, clie
 			resc <- result{err, time.Now()}
 			return
 		}
+		if sc.autoRead {
+			// the whole body was read inside the call
+			if n := len(resp.Bytes()); n != sc.down*c08Chunk {
+				err = fmt.Errorf("c08: auto-read body has %d bytes, want %d", n, sc.down*c08Chunk)
+			}
+			resc <- result{err, time.Now()}
+			return
+		}
 		if !run.hit("gotHeaders", "gotHeaders", true) {
 			c08Open(run.gate(&run.downGates, 0))
 		}
@@ -279,6 +316,9 @@ func c08Exec(sc c08Scenario, kind string, trigger int, timeoutFlavour bool, clie
 	o.nInj = run.nInj
 	for _, e := range run.events {
 		o.names = append(o.names, e.name)
+		if e.inject {
+			o.injNames = append(o.injNames, e.name)
+		}
 	}
 	firedAt := run.firedAt
 	run.mu.Unlock()
@@ -339,9 +379,10 @@ func c08Exec(sc c08Scenario, kind string, trigger int, timeoutFlavour bool, clie
 	// a dial that was still running goes on, detached, and its connection goes to the pool
 	if dialInFlight {
 		c08WaitFor(c08Bound, func() bool { return atomic.LoadInt32(&run.dialsStarted) <= atomic.LoadInt32(&run.dialsDone) })
-		if sc.proto == "h1" {
+		switch sc.proto {
+		case "h1":
 			c08WaitFor(c08Bound, func() bool { return c08IdleCount(c.GetTransport()) > 0 })
-		} else {
+		case "h2":
 			c08WaitFor(c08Bound, func() bool { return atomic.LoadInt32(&run.hsDone) > 0 })
 			c08WaitFor(c08Bound, func() bool { return c08HasGoroutine("http2.(*ClientConn).readLoop") })
 		}
@@ -376,11 +417,39 @@ func c08Exec(sc c08Scenario, kind string, trigger int, timeoutFlavour bool, clie
 	if sc.waitConn {
 		o.conn = "?"
 	}
+	if sc.proto == "h3" && strings.HasPrefix(o.firedNm, "dial") {
+		// whether a stream existed (and was reset) when the dial result raced the cancellation is
+		// not fixed by the model's atomic pick-up; not a clause of the property either
+		o.rst = "?"
+	}
 
 	// census: with the idle connections closed nothing of the library may keep running
+	if h3 != nil {
+		// first with the QUIC connection still open: only connection-level goroutines may remain
+		// (closing the connection would also release goroutines stuck on one request's stream)
+		deadline := time.Now().Add(c08Bound + time.Second)
+		for {
+			var per []string
+			for _, g := range c08Census() {
+				if !c08H3ConnLevel(g) {
+					per = append(per, g)
+				}
+			}
+			if len(per) <= base || time.Now().After(deadline) {
+				if len(per) > base {
+					o.leak = per
+				}
+				break
+			}
+			time.Sleep(5 * time.Millisecond)
+		}
+		c.GetTransport().t3.Close()
+	}
 	c.GetTransport().CloseIdleConnections()
 	peer.close()
-	o.leak = c08Settle(base, c08Bound+time.Second)
+	if l := c08Settle(base, c08Bound+time.Second); len(l) > 0 {
+		o.leak = append(o.leak, l...)
+	}
 	return
 }
 
@@ -433,30 +502,51 @@ func c08Judge(o c08Obs) (ok bool, failed []string, class string) {
 	if len(failed) == 0 {
 		return true, nil, ""
 	}
-	// the recorded defect: the wait between attempts ignores the context. It shows as a late
-	// return and/or as a further attempt started after the cancellation — and as nothing else.
-	if o.sc.maxRetries > 0 {
-		only := true
-		for _, f := range failed {
-			if !strings.HasPrefix(f, "not-prompt") && !strings.HasPrefix(f, "attempts-started-after-cancel") {
-				only = false
-			}
+	// recorded defects and exactly their symptoms:
+	//  retry-sleep-ignores-ctx — the wait between attempts ignores the context: a late return
+	//    and/or a further attempt started after the cancellation, in scenarios with retries;
+	//  h3-cancel-before-stream — HTTP/3 returns early (waiting for the dial / handshake / stream)
+	//    without closing the request body, and leaves a dial error caused by the dead context in
+	//    its client cache, which fails the NEXT request once.
+	sleepSym, h3Sym, other := false, false, false
+	for _, f := range failed {
+		switch {
+		case o.sc.maxRetries > 0 && (strings.HasPrefix(f, "not-prompt") || strings.HasPrefix(f, "attempts-started-after-cancel")):
+			sleepSym = true
+		case o.sc.proto == "h3" && (f == "request-body-not-closed" || strings.HasPrefix(f, "follow-up-failed:")):
+			h3Sym = true
+		default:
+			other = true
 		}
-		if only {
-			class = "retry-sleep-ignores-ctx"
-		}
+	}
+	switch {
+	case other:
+	case sleepSym && h3Sym:
+		class = "h3-cancel-before-stream+retry-sleep-ignores-ctx"
+	case sleepSym:
+		class = "retry-sleep-ignores-ctx"
+	case h3Sym:
+		class = "h3-cancel-before-stream"
 	}
 	return false, failed, class
 }
 
 func c08Line(o c08Obs) (line, impl string) {
 	tls := "0"
-	if o.sc.proto != "h1" {
+	if o.sc.proto == "h2" {
 		tls = "1"
 	}
 	impl = fmt.Sprintf("res=%s body=%s conn=%s rst=%s sleeps=%d", o.res, o.body, o.conn, o.rst, o.sleeps)
-	line = fmt.Sprintf("c08life %s %s %d %d %d 1 %s %s %s", o.sc.proto, tls, o.sc.up, o.sc.down, o.sc.maxRetries,
-		c08ModelTrace(o.trace), o.kind, impl)
+	auto := "0"
+	if o.sc.autoRead {
+		auto = "1"
+	}
+	tr := c08ModelTrace(o.trace)
+	if o.sc.autoRead && (o.firedNm == "hdrSent" || strings.HasPrefix(o.firedNm, "sent#")) {
+		tr += "~" // observed at the peer: the client may not have processed it yet
+	}
+	line = fmt.Sprintf("c08life %s %s %d %d %d 1 %s %s %s %s", o.sc.proto, tls, o.sc.up, o.sc.down, o.sc.maxRetries, auto,
+		tr, o.kind, impl)
 	return
 }
 
@@ -470,6 +560,14 @@ func c08Scenarios(proto string) []c08Scenario {
 		{name: "download", proto: proto, down: 5},
 		{name: "retry", proto: proto, down: 2, failFirst: 1, maxRetries: 2, interval: iv},
 		{name: "retry-upload", proto: proto, up: 2, down: 1, failFirst: 1, maxRetries: 1, interval: iv},
+	}
+	// auto-read: a body read that fails is an attempt failure inside Request.do. (On h3 the pending
+	// read reports the stream error, not the context error, and which of the two the caller gets
+	// depends on whether the headers had been processed — with a retry left both end the same.)
+	if proto == "h3" {
+		l = append(l, c08Scenario{name: "download-autoread", proto: proto, down: 4, autoRead: true, maxRetries: 1, interval: iv})
+	} else {
+		l = append(l, c08Scenario{name: "download-autoread", proto: proto, down: 4, autoRead: true})
 	}
 	if proto == "h1" {
 		l = append(l, c08Scenario{name: "waitconn", proto: proto, down: 1, waitConn: true})
@@ -511,6 +609,7 @@ func c08ScriptLane(t *testing.T, proto string, lane string) {
 					picks = append(picks, k)
 				}
 			} else {
+				// stratified: the first and the last point, and one seeded pick per kind of event
 				seen := map[int]bool{}
 				add := func(k int) {
 					if k >= 0 && k < n && !seen[k] {
@@ -520,8 +619,18 @@ func c08ScriptLane(t *testing.T, proto string, lane string) {
 				}
 				add(0)
 				add(n - 1)
-				for len(picks) < 5 {
-					add(rnd.Intn(n))
+				byClass := map[string][]int{}
+				var order []string
+				for k, nm := range dry.injNames {
+					cl := strings.SplitN(nm, "#", 2)[0]
+					if _, ok := byClass[cl]; !ok {
+						order = append(order, cl)
+					}
+					byClass[cl] = append(byClass[cl], k)
+				}
+				for _, cl := range order {
+					l := byClass[cl]
+					add(l[rnd.Intn(len(l))])
 				}
 			}
 			if sc.waitConn {
@@ -554,11 +663,14 @@ func c08ScriptLane(t *testing.T, proto string, lane string) {
 		}
 	}
 	must := []string{"dry-ok", "point=dialStart", "point=dialDone", "point=wroteHdr", "point=wrote", "point=wroteLast",
-		"point=gotHeaders", "point=gotBody", "point=sleepStart", "res=canceled", "res=deadline", "conn=reuse", "body=closed1", "body=none"}
-	if proto == "h1" {
+		"point=gotHeaders", "point=gotBody", "point=sleepStart", "point=hdrSent", "point=sent", "res=canceled", "res=deadline", "conn=reuse", "body=closed1", "body=none"}
+	switch proto {
+	case "h1":
 		must = append(must, "conn=new", "point=getConn")
-	} else {
+	case "h2":
 		must = append(must, "point=hsDone", "rst-seen")
+	case "h3":
+		must = append(must, "rst-seen")
 	}
 	for _, want := range must {
 		if cnt[want] == 0 {
